@@ -108,12 +108,12 @@ Proof.
 Qed.
 
 (* ---------- evaluation mode: no commitment term *)
-Theorem commit_zero_in_eval (return_loss has_commit : bool) (cw mse : R) : commit_term return_loss has_commit false cw mse = 0.
+Theorem commit_zero_in_eval (has_commit : bool) (cw mse : R) : commit_term has_commit false cw mse = 0.
 Proof.
   unfold commit_term, g_vq_commit.
-  destruct return_loss, has_commit; reflexivity.
+  destruct has_commit; reflexivity.
 Qed.
-Theorem commit_present_in_training (cw mse : R) : commit_term false true true cw mse = cw * mse.
+Theorem commit_present_in_training (cw mse : R) : commit_term true true cw mse = cw * mse.
 Proof. reflexivity. Qed.
 
 (* ---------- mse facts *)
